@@ -7,6 +7,7 @@
 //   DEC <mode> <hex>          Message::factory on the bytes; mode = s|p (strict/permissive) [n = no_chksum]
 //   REENC <mode> <hex>        factory, then encode the decoded object
 //   RT <mode> <msgspec>       build, encode, factory on the bytes, dump, encode the decoded object
+//   XCOPY <msgspec A> <msgspec B>  build A, create B of B's type (deep), A->copy_legal(B), then B's own insertions, encode B -> OK <hex>
 //   RENDER <fnum> <hex>       Field<T>(text).print() for the field's class -> OK <hex>
 //   CLONE|COPY|MOVE <msgspec> (C11) clone / copy_legal / move_legal into a fresh deep message; dump + encode
 // msgspec = <msgtype>;<hdr fields>;<body fields>;<trl fields>
@@ -271,6 +272,23 @@ void run_case(const std::string& line, std::ostream& os)
 				d = dump_msg(tgt.get());
 				h = enc(tgt.get()); }))
 			os << "OK " << d << " | " << h;
+	}
+	else if (op == "XCOPY")	// XCOPY <msgspec A> <msgspec B>: build A; create B (deep); A->copy_legal(B) (body); then B's own insertions; encode B
+	{
+		std::unique_ptr<Message> src, tgt;
+		std::string h;
+		if (stage(os, [&] {
+				src.reset(build(a1));
+				const std::vector<std::string> parts(split(a2, ';'));
+				if (parts.size() != 4) throw std::runtime_error("spec: 4 parts expected");
+				tgt.reset(mctx().create_msg(parts[0].c_str()));
+				if (!tgt) throw std::runtime_error("spec: unknown msgtype");
+				src->copy_legal(tgt.get());
+				{ Parser p(parts[1]); fill(p, tgt->Header(), nullptr); }
+				{ Parser p(parts[2]); fill(p, tgt.get(), nullptr); }
+				{ Parser p(parts[3]); fill(p, tgt->Trailer(), nullptr); }
+				h = enc(tgt.get()); }))
+			os << "OK " << h;
 	}
 	else if (op == "RENDER")	// RENDER <fnum> <hex text>: Field<T>(text).print() of the field's class
 	{
